@@ -149,7 +149,10 @@ def run_property(pid, tier, repo, seed):
     os.makedirs(vdir, exist_ok=True)
     for old in os.listdir(vdir):
         if old.startswith(pid + '-'):
-            os.remove(os.path.join(vdir, old))
+            try:
+                os.remove(os.path.join(vdir, old))
+            except FileNotFoundError:
+                pass        # another run of the same property on a scratch tree cleaned up at the same moment
     for key, kf in known_hit:
         print('KNOWN-FINDING: property=%s %s %s' % (pid, key, kf.get('what', '')))
     for key, insts in new_viol:
